@@ -78,9 +78,17 @@ def near_collinear_points(n, eps):
     return np.array([OFFSET + STEP * KS[i] * d + STEP * eps * w[i] * perp for i in range(n)])
 
 
+SMALL = {'generic_small': 0.125}      # generic geometry shrunk so that anchors are 0.01 .. 0.1 nm apart
+BENT = {'bent_1e-5': 1e-5}            # nearly straight, but bent enough that the frame is fully determined
+
+
 def ref_positions(geo, n, seed):
     if geo in NEAR:
         return near_collinear_points(n, NEAR[geo])
+    if geo in BENT:
+        return near_collinear_points(n, BENT[geo])
+    if geo in SMALL:
+        return generic_points(n, seed, tag=100 + n) * SMALL[geo] + OFFSET
     if geo == 'generic':
         return generic_points(n, seed, tag=100 + n)
     if geo == 'right':
